@@ -33,7 +33,10 @@ elif [ "$mode" = check ]; then
   cd /verif
   for p in "$@"; do
     echo "== $p"
+    # the evidence file belongs to runs on the unchanged tree: keep it out of the way
+    [ -f "evidence/$p.json" ] && cp "evidence/$p.json" "/tmp/seedtest.$$.$p.json"
     timeout 3000 ./tools/check "$p" --tier quick 2>&1 | grep -v "^WARNING" | tail -6
     echo "rc=${PIPESTATUS[0]}"
+    [ -f "/tmp/seedtest.$$.$p.json" ] && mv "/tmp/seedtest.$$.$p.json" "evidence/$p.json"
   done
 fi
